@@ -279,7 +279,8 @@ ProductRep(bc, kinds, cons, f, vecs) ==
 Product(bc, n, kp, cn, f, v, how) ==
     /\ phase = "init" /\ "product" \in Ctors
     /\ phase' = "live" /\ nops' = 0
-    /\ Keep(CaseNo(BcNum(bc), n, 0, kp, cn, 0, v, HowNum(how)))
+    \* (infinite fermionic product states of local superpositions are always kept: measurements beyond the unit cell)
+    /\ (Keep(CaseNo(BcNum(bc), n, 0, kp, cn, 0, v, HowNum(how))) \/ (how = "array" /\ bc = "infinite" /\ kp = 2 /\ f = "B"))
     /\ (cn # 0 => (Homogeneous(kp) /\ how # "array"))
     /\ LET kinds == KindPat(kp, n)
            hows == [i \in 1..n |-> HowAt(how, i)]
